@@ -384,6 +384,15 @@ func check(prop, tier string) int {
 	if err := json.Unmarshal([]byte(out), &jobs); err != nil {
 		fatal(2, "plan output: %v\n%s", err, out)
 	}
+	if only := os.Getenv("VERIF_ONLY_JOB"); only != "" { // development aid: run the jobs with this name prefix only (the evidence then covers those jobs only; never set by a registered command)
+		var kept []job
+		for _, j := range jobs {
+			if strings.HasPrefix(argVal(j.Args, "-job"), only) {
+				kept = append(kept, j)
+			}
+		}
+		jobs = kept
+	}
 	needRace := false
 	for _, j := range jobs {
 		if j.Race {
